@@ -10,6 +10,8 @@
      dd     [in-use directory -> inode its ".." names]
      ea     [in-use inode -> 0/1]      owns an xattr block
      blk    [in-use inode -> blocks owned], fb = free blocks, leak = blocks in use without an owner
+     zomb   free inodes whose inode-table slot looks in use (link count > 0, no deletion time): what a refused mkdir /
+            symlink leaves behind when the name is looked up only after the inode was written
    and two history components that say how far RAW operations (ln, unlink, kill_file, sif) moved the stored count
    away from the directory references:
      skew   [in-use inode -> Int]      expected value of Refs(i) - links[i]
@@ -28,7 +30,9 @@ CONSTANTS Root,                  \* inode of the root directory
           LinkMod,               \* i_links_count is a __u16: arithmetic modulo 65536
           DirNlink, FileType,    \* features
           DevMkdirNoNlinkRule,   \* literal: ext2fs_mkdir does parent.i_links_count++ with no dir_nlink saturation
-          DevKillLeaksEaBlock    \* literal: debugfs kill_file_by_inode leaves the victim's xattr block allocated
+          DevKillLeaksEaBlock,   \* literal: debugfs kill_file_by_inode leaves the victim's xattr block allocated
+          DevMkdirExistsLeak,    \* literal: ext2fs_mkdir of an existing name writes the new inode before it looks the name up
+          DevSymlinkExistsLeak   \* literal: ext2fs_symlink of an existing name does the same
 
 FTDIR == 2
 Dom(f) == DOMAIN f
@@ -66,7 +70,7 @@ Structure(s) ==
    /\ s.dd[Root] = Root
 Consistent(s) ==
    /\ Dangling(s) = {}
-   /\ s.leak = 0
+   /\ s.leak = 0 /\ s.zomb = {}
    /\ \A i \in Alloc(s) : s.links[i] = Want(s, i) \/ Saturated(s, i)
    /\ Structure(s)
 
@@ -97,7 +101,7 @@ HasName(s, d, n) == IsDir(s, d) /\ d \in DOMAIN s.ent /\ n \in DOMAIN s.ent[d]
 \* o.sz = blocks the new object owns, o.exp = 1 when the parent directory had to be expanded by one block
 NewInode(s, i, t, l, sz) ==
    [s EXCEPT !.ty = With(@, i, t), !.links = With(@, i, l), !.ea = With(@, i, 0), !.blk = With(@, i, sz),
-             !.skew = With(@, i, NewSkew(s, i, t)), !.fb = @ - sz]
+             !.skew = With(@, i, NewSkew(s, i, t)), !.fb = @ - sz, !.zomb = @ \ {i}]
 Expand(s, d, e) == [s EXCEPT !.blk[d] = @ + e, !.fb = @ - e]
 
 MkdirLinks(s, d) ==
@@ -105,8 +109,13 @@ MkdirLinks(s, d) ==
    IF DevMkdirNoNlinkRule THEN nl % LinkMod
    ELSE IF DirNlink /\ (nl > LinkMax \/ s.links[d] = 1) THEN 1 ELSE nl % LinkMod
 
+\* A request that names an existing entry is refused and NOTHING changes.  Literally (Dev*): the inode had already been
+\* written when the name was looked up; the bitmaps are rolled back, the inode-table slot keeps its link count.
+\* (The slot is the lowest free inode; allocating that inode later overwrites it: NewInode.)
+RefusedExists(s, o, dev) == IF dev /\ HasName(s, o.d, o.n) /\ HasFree(s) THEN [s EXCEPT !.zomb = @ \cup {MinFree(s)}] ELSE s
+
 Mkdir(s, o) ==          \* debugfs mkdir = ext2fs_mkdir (+ expand_dir and retry)
-   IF ~(CanName(s, o.d, o.n) /\ HasFree(s)) THEN s ELSE
+   IF ~(CanName(s, o.d, o.n) /\ HasFree(s)) THEN RefusedExists(s, o, DevMkdirExistsLeak) ELSE
    LET i == MinFree(s)
        s1 == NewInode(s, i, FTDIR, 2, o.sz)
        s2 == [s1 EXCEPT !.dd = With(@, i, o.d), !.ent = With(@, i, <<>>)]
@@ -116,7 +125,7 @@ Mkdir(s, o) ==          \* debugfs mkdir = ext2fs_mkdir (+ expand_dir and retry)
                         !.sat = IF ~DevMkdirNoNlinkRule /\ DirNlink /\ nl = 1 THEN @ \cup {o.d} ELSE @], o.d, o.exp)
 
 Creat(s, o, t) ==       \* debugfs write / symlink / mknod: new inode with count 1, one name
-   IF ~(CanName(s, o.d, o.n) /\ HasFree(s)) THEN s ELSE
+   IF ~(CanName(s, o.d, o.n) /\ HasFree(s)) THEN RefusedExists(s, o, DevSymlinkExistsLeak /\ t = 7) ELSE
    LET i == MinFree(s) IN Expand(AddName(NewInode(s, i, t, 1, o.sz), o.d, o.n, i, t), o.d, o.exp)
 
 RawLink(s, o, fit) ==   \* debugfs ln: ext2fs_link only, no expansion, no count
@@ -193,7 +202,7 @@ LinksRule(s) == \A i \in Alloc(s) : \/ (s.links[i] + s.skew[i]) % LinkMod = Refs
 \* no inode is both free and referenced, unless the history released it while names pointed at it
 NoFreeReferenced(s) == \A e \in Dangling(s) : s.ent[e[1]][e[2]][1] \in s.taint
 \* links = refs exactly when the history is balanced; and a balanced history leaves a consistent filesystem
-Balanced(s) == (\A i \in Alloc(s) : s.skew[i] = 0) /\ s.taint = {} /\ s.leak = 0
+Balanced(s) == (\A i \in Alloc(s) : s.skew[i] = 0) /\ s.taint = {} /\ s.leak = 0 /\ s.zomb = {}
 BalancedIsConsistent(s) == Balanced(s) /\ Structure(s) => Consistent(s)
 SumBlk(s) == LET RECURSIVE Sm(_) Sm(T) == IF T = {} THEN 0 ELSE LET x == CHOOSE y \in T : TRUE IN s.blk[x] + Sm(T \ {x}) IN Sm(Alloc(s))
 =============================================================================
